@@ -171,7 +171,7 @@ func symEnv() *cenv {
 	c.ef = &Filter{FilterOperationOverrides: m}
 	if nondetBool() {
 		c.w = mkWrapper("filter")
-		c.ef.Wrapper = c.w
+		c.ef.Wrapper = verifFaulty(c.w)
 		c.salt, c.info = []byte{1}, []byte{2}
 		c.ef.HmacSalt, c.ef.HmacInfo = c.salt, c.info
 	}
